@@ -499,6 +499,9 @@ def crash_child(spec, rec, db, E, ackpath, errpath, k, phase):
     """Runs in the forked process; never returns."""
     code = 3
     try:
+        import faulthandler
+        hangf = open(errpath + '.hang', 'w')
+        faulthandler.dump_traceback_later(spec.get('watchdog', WATCHDOG) * 0.6, file=hangf, exit=False)
         from vlib.dbapi import Fault
         ackfd = os.open(ackpath, os.O_WRONLY | os.O_CREAT | os.O_APPEND, 0o644)
         n = [0]
@@ -559,7 +562,7 @@ def driver_main(spec):
             # still covered by the simulated crash enumeration
             results.append({'k': k, 'phase': phase, 'dir': d, 'status': 'skipped_budget'}); continue
         restore(spec['template'], dbfile)
-        for f in (ackpath, errpath):
+        for f in (ackpath, errpath, errpath + '.hang'):
             if os.path.exists(f): os.remove(f)
         pid = os.fork()
         if pid == 0:
@@ -576,7 +579,7 @@ def driver_main(spec):
                 status = 'watchdog'; fired += 1; break
             time.sleep(0.001)
         # keep the crashed database exactly as the dead process left it (journal next to it)
-        for src, name in ((dbfile, 'db.sqlite'), (dbfile + '-journal', 'db.sqlite-journal'), (ackpath, 'acks'), (errpath, 'error')):
+        for src, name in ((dbfile, 'db.sqlite'), (dbfile + '-journal', 'db.sqlite-journal'), (ackpath, 'acks'), (errpath, 'error'), (errpath + '.hang', 'hang')):
             if os.path.exists(src): os.replace(src, os.path.join(d, name))
         results.append({'k': k, 'phase': phase, 'dir': d, 'status': status})
     with open(os.path.join(wd, 'results.json.tmp'), 'w') as f: json.dump(results, f)
@@ -897,6 +900,11 @@ def judge_program_crashes(ctx, serial, prog, info, results, err, label='crash'):
     for r in results:
         if r['status'] == 'watchdog':
             ctx.count(label + '_watchdog')
+            try:
+                ctx.extra.setdefault('watchdog_tracebacks', [])
+                if len(ctx.extra['watchdog_tracebacks']) < 3:
+                    ctx.extra['watchdog_tracebacks'].append(open(os.path.join(r['dir'], 'hang')).read()[-1500:])
+            except Exception: pass
             ctx.inconclusive.append('%s watchdog: program %d k=%d %s' % (label, serial, r['k'], r['phase'])); continue
         if r['status'] == 'skipped_after_watchdogs':
             ctx.count(label + '_points_skipped'); continue
